@@ -34,6 +34,46 @@ def is_send(c, tx):
     return len(c) == 3 and c[0][0] == "discr" and c[0][1][0] == "call" and c[0][1][1].endswith("Sender::<T>::send") and c[0][1][2][0] == tx
 
 
+def vcp_lookup(chk, prog):
+    """get_volume_coverage_pattern, called on every start chunk before it is delivered: a start chunk that carries a coverage
+    pattern anywhere in its records must not abort polling. Decided on the loop summaries: MissingCoveragePattern is returned
+    only once every record has been looked at (the record loop's normal exit), never from inside it; some path returns the
+    coverage-pattern message found."""
+    path = PC + "get_volume_coverage_pattern"
+    fn = prog.fn(path)
+    if fn is None:
+        chk.notes["get_volume_coverage_pattern"] = "helper not found under this name (analysed inside its caller if it was inlined)"
+        return
+    try:
+        ls = loops.summarize(prog, fn)
+    except sym.Undecided as e:
+        chk.blind("VN", path, "the record loop could not be summarised: %s" % e, fn.where())
+        return
+    top = [l for l in ls if l["depth"] == 0]
+    chk.ob("VN", path, len(top) == 1, "%d top-level loop(s) (the walk over the chunk's records expected)" % len(top), fn.where(), key="one-loop")
+    if len(top) != 1:
+        return
+    early, found = [], 0
+    for lp in ls:
+        for conds, kind, val in lp["paths"]:
+            v = val[2] if isinstance(val, tuple) and val and val[0] == "ret" else None
+            if v is None:
+                continue
+            r = repr(v)
+            if "MissingCoveragePattern" in r:
+                early.append(lp["where"])
+            if v[0] == "adt" and v[2] == "Ok" and "VolumeCoveragePattern" in r:
+                found += 1
+    chk.ob("R-ERR", path, not early, "MissingCoveragePattern is not returned while records remain to be looked at" if not early else
+           "MissingCoveragePattern is returned from inside the record loop (%s): a start chunk whose coverage pattern sits in a later record aborts polling" % early[0], fn.where(), key="no-early-missing")
+    try:
+        ret = loops.exit_value(prog, fn, top[0])
+        chk.ob("R-ERR", path, "MissingCoveragePattern" in repr(ret) and ret[0] == "adt" and ret[2] == "Err", "when no record holds a coverage pattern the result is MissingCoveragePattern", fn.where(), key="missing-at-end")
+    except sym.Undecided as e:
+        chk.blind("VN", path, "result after the record loop undecided: %s" % e, fn.where())
+    chk.ob("R-WIRE", path, found >= 1, "a coverage-pattern message found in a record is returned (%d returning path(s))" % found, fn.where(), key="returns-found")
+
+
 def run(chk, tier):
     prog, info = common.program("all")
     common.note_extraction(chk, info, prog)
@@ -157,6 +197,8 @@ def run(chk, tier):
         c17.realtime_listing(chk, prog, T[2])
     c05.chunk_sniffing(chk, prog)
     c15.glv(chk, prog)
+    c15.probes(chk, prog)
+    vcp_lookup(chk, prog)
 
 
 def first_delivery(chk, prog, fn, lp, names, site, tx):
